@@ -44,11 +44,11 @@ func (c06) Runs(t Tier) int {
 	if t == Thorough {
 		return 20000
 	}
-	return 400
+	return 700
 }
 func (c06) RecordWidths() map[string]int { return nil }
 func (c06) RequiredProbes() []string {
-	return []string{"file-entity", "dir-entity", "plain-dir-entity", "linksystem-with-node-reifier", "repeat-access-on-same-root-object", "lazy-use-before-preload", "via-path-selector", "preload-reifier", "preload-selector", "entity-selector", "fault-on-last-block", "fault-on-interior", "kth-load", "subset-fault", "entries-have-blocks"}
+	return []string{"file-entity", "dir-entity", "plain-dir-entity", "linksystem-with-node-reifier", "repeat-access-on-same-root-object", "lazy-use-before-preload", "derived-link-system", "via-path-selector", "preload-reifier", "preload-selector", "entity-selector", "fault-on-last-block", "fault-on-interior", "kth-load", "subset-fault", "entries-have-blocks"}
 }
 
 // repeatMarker in faultPlan.after selects the "access twice on one root
@@ -82,6 +82,10 @@ func (c06) Run(ts *tape.Set, tier Tier) *Result {
 	}
 	// what matters below is whether the link system in fact hands out reified
 	// nodes, not whether this run asked for it (a helper may install a reifier)
+	derivedLS := !nodeReifier && planSeed%5 == 2
+	if derivedLS {
+		res.probe("derived-link-system")
+	}
 	lsReifies := newWorld(store.New(), false, nodeReifier).LS.NodeReifier != nil
 
 	st := store.New()
@@ -199,6 +203,9 @@ func (c06) Run(ts *tape.Set, tier Tier) *Result {
 		st.ReadPolicy = nil
 		var hits func() []cid.Cid
 		w := newWorld(st, false, nodeReifier)
+		if derivedLS {
+			w = newDerivedWorld(st, false)
+		}
 		panicked, site, pmsg = guard(func() {
 			// the caller loads the starting block itself
 			rn, lerr := w.LoadRoot(start)
